@@ -63,7 +63,9 @@ type Shape struct {
 	XMLText int `json:"xml_text,omitempty"`
 	// XMLNS (xml): 0 no namespaces; 1 the root element declares a default namespace; 2 as 1 and every record element whose first
 	// value has an even byte length re-declares the same default namespace; 3 as 1 and the root also declares two unused prefixes, one of them
-	// re-declared (same URI) on those records. Element names stay unprefixed, so schema xpaths are unaffected.
+	// re-declared (same URI) on those records; 4 the root element carries no attribute at all and the default namespace
+	// is first declared on a nested element (the body of the envelope, else every record). Element names stay unprefixed, so
+	// schema xpaths are unaffected.
 	XMLNS   int  `json:"xml_ns,omitempty"`
 	FLRows  int  `json:"fl_rows,omitempty"`
 	FLBlank bool `json:"fl_blank,omitempty"`
@@ -173,7 +175,7 @@ func DrawShape(t *rapid.T, o ShapeOpts) Shape {
 				s.XMLText = rapid.IntRange(1, 5).Draw(t, "xmlText")
 			}
 			if rapid.IntRange(0, 2).Draw(t, "xmlNamespaces") == 0 {
-				s.XMLNS = rapid.IntRange(1, 3).Draw(t, "xmlNS")
+				s.XMLNS = rapid.IntRange(1, 4).Draw(t, "xmlNS")
 			}
 		}
 		if rapid.Bool().Draw(t, "hasSub") {
@@ -471,6 +473,9 @@ func (s Shape) transformDecls() obj {
 		last := colName(s.NCols - 1)
 		fields["dyn"] = obj{"xpath_dynamic": obj{"custom_func": obj{"name": "concat", "args": []interface{}{obj{"const": "c"}, obj{"const": "0"}}}}}
 		fields["dynobj"] = obj{"xpath_dynamic": obj{"const": "."}, "object": obj{"c0": obj{"xpath": "c0"}, "l": obj{"xpath": last}}}
+		// an xpath computed from the record's data: differs from record to record and between concurrent transforms
+		fields["dyndata"] = obj{"xpath_dynamic": obj{"custom_func": obj{"name": "javascript", "args": []interface{}{
+			obj{"const": fmt.Sprintf("'c' + (a.length %% %d)", s.NCols)}, obj{"const": "a"}, obj{"xpath": "c0", "no_trim": true}}}}}
 		fields["same"] = obj{"xpath": "c0"}
 		fields["nest"] = obj{"object": obj{"same": obj{"xpath": "c0"}, "deeper": obj{"object": obj{"same": obj{"xpath": "c0"}}}}}
 		fields["arr"] = obj{"array": []interface{}{obj{"xpath": "c0"}, obj{"xpath": last}, obj{"xpath": "c0"}}}
@@ -999,7 +1004,11 @@ func (s Shape) RenderParts(recs []Rec) (pro string, parts []string, epi string) 
 		pro = "<root" + rootNS + ">"
 		epi = "</root>" + eol
 		if s.Envelope {
-			pro = `<?xml version="1.0" encoding="UTF-8"?>` + eol + `<root` + rootNS + `><head a="1">h</head><body>`
+			bodyNS := ""
+			if s.XMLNS == 4 {
+				bodyNS = ` xmlns="urn:verif:d"`
+			}
+			pro = `<?xml version="1.0" encoding="UTF-8"?>` + eol + `<root` + rootNS + `><head a="1">h</head><body` + bodyNS + `>`
 			epi = "</body><foot/></root>" + eol
 		}
 		xmlEscape := func(v string) string { return xmlCharData(v, s.XMLText) }
@@ -1014,6 +1023,9 @@ func (s Shape) RenderParts(recs []Rec) (pro string, parts []string, epi string) 
 				case 3:
 					recNS = ` xmlns:u1="urn:verif:u1"`
 				}
+			}
+			if s.XMLNS == 4 && !s.Envelope {
+				recNS = ` xmlns="urn:verif:d"`
 			}
 			if s.Filter && s.IntCol != 0 && s.QuoteInFilter {
 				k := "ok"
